@@ -85,6 +85,10 @@ func (h Handler) ServeHTTP(w http.ResponseWriter, r *http.Request) (int, error) 
 		// but we also want to be flexible for the script we proxy to.
 
 		fpath := r.URL.Path
+		if fpath == "" {
+			// an absolute-form request target without a path (GET http://host HTTP/1.1) means "/"
+			fpath = "/"
+		}
 		// We trim those characters because they are served as plain text if appended after .php on Windows
 		// (a last segment made only of those characters, such as "." or "..", is a path element: trimming
 		// it would turn /dir/.. into /dir/, which is not the path the matchers before this handler saw)
